@@ -290,7 +290,8 @@ class DULServiceProvider(threading.Thread):
             pdu_type, event = PDU_TYPES[six.indexbytes(raw_pdu, 0)]
             self.primitive = pdu_type.decode(raw_pdu)
             self.event.append(event)
-        except KeyError:
+        except Exception:  # pylint: disable=broad-except
+            # Unknown PDU type or PDU that can not be decoded, both are 'Unrecognized/invalid PDU'
             self.event.append(fsm.Events.EVT_19)
         return True
 
